@@ -445,6 +445,8 @@ class SpecEval(object):
                 v = self.deref(v) if isinstance(v, PtrV) else v
                 if isinstance(v, ArrV):
                     return I(len(v.elems))
+                if isinstance(v, Opaque) and ex.kind(v.tid) == 'map':
+                    return ex.map_len(self.st, v)
                 return v.len
             if name == 'cap':
                 v = self.ev(args[0])
